@@ -497,6 +497,8 @@ def spec_class(c):
         if want in ("err", "nonpositive"):
             if c.pos == "arraysize" and m == "error":
                 return None
+            if want == "nonpositive" and not exact:
+                return "%s:intermediate-not-wrapped:value" % ev      # the size is only non-positive after the 32-bit wrap naga skips
             return "%s:%s:error-not-reported" % (ev, s[1] if is_err(s) else "size-not-positive")
         if want == m:
             return None
